@@ -92,7 +92,12 @@ def _from_execution(F: Facts, m: Module) -> Dict[str, Entry]:
             raise AnalysisError('%s has a non-literal key %r' % (TABLE, k))
         fv = freeze(v)
         line = 0
-        if isinstance(v, Closure):
+        origin = F.__dict__.get('_closure_origin', {})
+        if isinstance(v, Closure) and v.cid in origin and origin[v.cid] in F.functions:
+            # a wrapper built by the decorators of a def: the entry is that (decorated) function; analysing it runs the wrappers
+            tgt = origin[v.cid]
+            e = Entry(k[1], 'fn', tgt, F.functions[tgt].node, F.functions[tgt].node.lineno)
+        elif isinstance(v, Closure):
             node = v.node
             line = node.lineno
             if isinstance(node, ast.Lambda):
